@@ -24,7 +24,7 @@ import asyncio
 import logging
 import random
 from functools import partial
-from typing import TYPE_CHECKING, Dict, List, Optional, Tuple, Union, cast
+from typing import TYPE_CHECKING, Any, Dict, List, Optional, Tuple, Union, cast
 
 from ._logger import QuietLogger, log
 from ._protocol.incoming import DNSIncoming
@@ -63,6 +63,7 @@ class AsyncListener:
         'data',
         'last_time',
         'last_message',
+        'last_addrs',
         'transport',
         'sock_description',
         '_deferred',
@@ -77,6 +78,7 @@ class AsyncListener:
         self.data: Optional[bytes] = None
         self.last_time: float = 0
         self.last_message: Optional[DNSIncoming] = None
+        self.last_addrs: Optional[Tuple[Any, ...]] = None
         self.transport: Optional[_WrappedTransport] = None
         self.sock_description: Optional[str] = None
         self._deferred: Dict[str, List[DNSIncoming]] = {}
@@ -113,6 +115,9 @@ class AsyncListener:
     ) -> None:
         if (
             self.data == data
+            # the same bytes from another source are another querier's
+            # datagram, not a link-layer duplicate of the last one
+            and self.last_addrs == addrs
             and (now - _DUPLICATE_PACKET_SUPPRESSION_INTERVAL) < self.last_time
             and self.last_message is not None
             and not self.last_message.has_qu_question()
@@ -148,6 +153,7 @@ class AsyncListener:
         self.data = data
         self.last_time = now
         self.last_message = msg
+        self.last_addrs = addrs
         if msg.valid is True:
             if debug:
                 log.debug(
